@@ -445,10 +445,11 @@ type Sent struct {
 	Signed     bool
 	SignedKey  int
 
-	SPVer      int // registration version of the sending SP when the message was built
-	Session    int // callback: session index addressed (-1 none)
-	CallbackID string
-	SPIdx      int
+	SPVer       int // registration version of the sending SP when the message was built
+	Session     int // callback: session index addressed (-1 none)
+	CallbackID  string
+	CallbackIDs []string // every id value the request names (form and query may differ)
+	SPIdx       int
 }
 
 func (w *World) spNode(i int) *SPNode {
@@ -598,7 +599,7 @@ func BuildRequest(w *World, t *Task, m *MsgSpec) (*http.Request, *Sent, error) {
 	s.EntityID = w.IDPModel.EntityID(s.IdPIssuer)
 	sp := w.spNode(m.SP)
 	s.SPVer = sp.Version
-	if (m.BodyFault != "" && m.BodyFault != "short") || m.WriterFault {
+	if (m.BodyFault != "" && !benignBody(m.BodyFault)) || m.WriterFault {
 		w.notConformant(s, "transport fault") // a body that arrives in small pieces is ordinary transport behaviour, not a fault
 	}
 	if len(m.Tamper) > 0 {
@@ -1105,8 +1106,42 @@ func (w *World) buildCallback(m *MsgSpec, s *Sent) {
 		id = strings.Repeat("A", 70000)
 	case "literal":
 		id = m.IDLit
+	case "session-variant":
+		// an id that is NOT a stored one but that a sloppy lookup (unescaping, trimming, case folding …) would map onto one
+		id = "ar0-none"
+		if len(w.sessions) > 0 {
+			se := w.sessions[mod(m.Session, len(w.sessions))]
+			real := se.ID
+			switch m.IDLit {
+			case "pct-char":
+				id = real[:len(real)-1] + fmt.Sprintf("%%%02X", real[len(real)-1])
+			case "pct-dash":
+				id = strings.Replace(real, "-", "%2D", 1)
+			case "upper":
+				id = strings.ToUpper(real)
+			case "trailing-space":
+				id = real + " "
+			case "leading-space":
+				id = " " + real
+			case "trailing-nul":
+				id = real + "\x00"
+			case "plus-for-dash":
+				id = strings.Replace(real, "-", "+", 1)
+			case "double-pct":
+				id = url.QueryEscape(url.QueryEscape(real + "/"))
+				id = strings.TrimSuffix(id, "%252F")
+				if id == real {
+					id = real[:len(real)-1] + "%25" + fmt.Sprintf("%02X", real[len(real)-1])
+				}
+			case "trailing-slash":
+				id = real + "/"
+			default:
+				id = real[:len(real)-2]
+			}
+		}
 	}
 	s.CallbackID = id
+	s.CallbackIDs = []string{id}
 	place := m.IDPlace
 	if place == "" {
 		place = "query"
@@ -1131,6 +1166,7 @@ func (w *World) buildCallback(m *MsgSpec, s *Sent) {
 		s.Method, s.ContentType = "POST", "application/x-www-form-urlencoded"
 		s.Body = []byte("id=" + enc)
 		s.RawQuery = "id=ar999-deadbeef0000"
+		s.CallbackIDs = append(s.CallbackIDs, "ar999-deadbeef0000")
 	}
 	for _, e := range m.Extra {
 		if s.RawQuery != "" {
